@@ -21,10 +21,10 @@ from pv.sem.ptsem import PtEval
 LEVEL = "translation_validation"
 MOD = "pv.props.c05"
 
-TRANSFORMS = ["copy_mapper", "map_and_copy_identity", "deduplicate", "deduplicate_data_wrappers",
-              "eliminate_dead_code", "materialize_with_mpms", "unify_axes_tags", "preprocess"]
+TRANSFORMS = ["copy_mapper", "map_and_copy_identity", "map_and_copy_retag_leaves", "deduplicate", "deduplicate_data_wrappers",
+              "eliminate_dead_code", "materialize_with_mpms", "retag_leaves+materialize_with_mpms", "unify_axes_tags", "preprocess"]
 IDEMPOTENT = {"deduplicate", "eliminate_dead_code", "materialize_with_mpms"}
-TAGS_ONLY = {"materialize_with_mpms", "unify_axes_tags"}
+TAGS_ONLY = {"materialize_with_mpms", "unify_axes_tags", "map_and_copy_retag_leaves", "retag_leaves+materialize_with_mpms"}
 
 
 def _target():
@@ -49,6 +49,16 @@ def apply_transform(name, dag):
         return T.CopyMapper()(dag), {}
     if name == "map_and_copy_identity":
         return T.map_and_copy(dag, lambda x: x), {}
+    if name in ("map_and_copy_retag_leaves", "retag_leaves+materialize_with_mpms"):
+        # every placeholder comes back as a new (tagged) object, so every node above is REBUILT by the copy mapper:
+        # the rebuild branch of each map_* method runs for every node kind in the program, not only the
+        # "nothing changed" shortcut
+        from pv.props.c04tags import FooTag
+
+        def retag(x):
+            return x.tagged(FooTag()) if isinstance(x, pt.Placeholder) else x
+        r = T.map_and_copy(dag, retag)
+        return (T.materialize_with_mpms(r) if name.endswith("mpms") else r), {}
     if name == "deduplicate":
         return T.deduplicate(dag), {}
     if name == "deduplicate_data_wrappers":
